@@ -67,3 +67,12 @@ pub fn seq_configs(prop: &str, tier: Tier) -> Vec<crate::seqx::Config> {
         _ => Vec::new(),
     }
 }
+
+pub fn e3_tuples(prop: &str, tier: Tier) -> Vec<crate::asyncx::Tuple> {
+    match prop {
+        "C11" => crate::c11::tuples("C11", tier),
+        "C06" => crate::c06::tuples("C06", tier),
+        "C12" => { let mut v = crate::c12::tuples(tier); v.extend(crate::c06::tuples("C12", tier)); v.extend(crate::c11::tuples("C12", tier)); v }
+        _ => Vec::new(),
+    }
+}
